@@ -16,6 +16,7 @@ import (
 	"strings"
 
 	"github.com/corazawaf/coraza/v3/experimental/plugins/plugintypes"
+	"github.com/corazawaf/coraza/v3/internal/corazawaf"
 	"github.com/corazawaf/coraza/v3/internal/transformations"
 	"github.com/corazawaf/coraza/v3/verifharness/vh"
 )
@@ -121,6 +122,12 @@ func callPure(name string, t plugintypes.Transformation, in string) (out string,
 		return o1, c1, e1 != nil, "input modified"
 	}
 	o1copy := strings.Clone(o1)
+	// a later call on a different input must not change an output already handed out
+	_, _, _ = t(strings.Clone(keep) + "\x01later")
+	_, _, _ = t("x" + strings.Clone(keep))
+	if o1 != o1copy {
+		return o1copy, c1, e1 != nil, "output changed by a later call (aliases shared state)"
+	}
 	o2, c2, e2 := t(strings.Clone(keep))
 	if o2 != o1copy || c1 != c2 || (e1 != nil) != (e2 != nil) {
 		return o1, c1, e1 != nil, "not deterministic"
@@ -232,6 +239,34 @@ func Run(cfg vh.Config) (*vh.Result, error) {
 			} else if merr == nil && mv != mvalue {
 				cj := caseJSON{Kind: "list-step", T: []string{td.Go}, InHex: hexs(mvalue), OutHex: hexs(mv)}
 				fail("c14-flag-"+td.Go, td.Go+" reports unchanged but output differs (multiMatch would miss the value)", cj)
+			}
+		}
+		// the same lists through the REAL rule-level loops (Rule.executeTransformations and
+		// Rule.executeTransformationsMultimatch): they must agree with the step-by-step run above
+		{
+			r := corazawaf.NewRule()
+			for _, td := range tl {
+				_ = r.AddTransformation(td.Go, get(td.Go))
+			}
+			rv, rn := r.VerifC14Exec(strings.Clone(in))
+			rm, rmn := r.VerifC14ExecMulti(strings.Clone(in))
+			oracleEvals++
+			okMulti := len(rm) == len(multi)+1 && rm[0] == in
+			for i := 0; okMulti && i < len(multi); i++ {
+				okMulti = rm[i+1] == multi[i]
+			}
+			if rv != value || rn != nerr || !okMulti || rmn != nerr {
+				names0 := make([]string, len(tl))
+				for i, td := range tl {
+					names0[i] = td.Go
+				}
+				cj := caseJSON{Kind: "list", T: names0, InHex: hexs(in), OutHex: hexs(rv), NErr: rn}
+				fail("c14-rule-loop", fmt.Sprintf("Rule.executeTransformations(Multimatch) disagrees with applying the transformations one by one: value %q/%q errors %d/%d multi %q/%q", rv, value, rn, nerr, rm, multi), cj)
+			}
+			// what is compared with the Coq model is what the real loops returned
+			value, nerr = rv, rn
+			if len(rm) > 0 {
+				multi = rm[1:]
 			}
 		}
 		names := make([]string, len(tl))
